@@ -176,6 +176,166 @@ def values(src, m, rng, n_random, quick):
     return sorted(base)
 
 
+# ------------------------------------------------------------------ multiples of the modulus (deterministic: no seed, no luck)
+# Every ring x every source type x many moduli (composite ones, powers of two, maxCardinality, maxCardinality-1, ...) x the
+# values k*m, k*m+-1 for small and large |k| of both signs.  A correction tail (`if (a >= _p) a -= _p`, NORMALISE, `if (p <= r)`)
+# that is one comparison off shows only for a value whose intermediate result is EXACTLY the bound, and which value that is may
+# depend on rounding (ModularExtended: quotient estimate with the rounded 1/p), so the class is enumerated, not sampled.
+KP_MODULI = [2, 3, 4, 6, 9, 15, 49, 64, 75, 121, 255, 1000, 1024, 4093, 32749, 32768, 65521, 65536, 2**20, 10**6 + 3, 2**24, 2**24 + 1,
+             2**31 - 1, 2**31, 2**32, 3 * 2**40, 2**50 - 27, 2**53, 2**62, 2**63, 10**30, 2**100]
+KP_MUST = (49, 75, 32749)
+KP_SMALL_K = (1, 2, 3, 4, 5, 7, 8, 16, 30, 31, 40)
+
+
+def kp_moduli(ring, lo, hi, extra=()):
+    want = set(KP_MODULI) | {lo, lo + 1, hi, hi - 1, hi - 2, hi // 2, 1 << (hi.bit_length() - 1)} | set(extra)
+    ms = sorted(m for m in want if lo <= m <= hi)
+    if ring == "log16":
+        ms = sorted({prevprime(m + 1) for m in ms if m >= 2})
+    if ring == "mont32":
+        ms = sorted({m if m % 2 else m - 1 for m in ms if m >= 3})
+    must = [m for m in ms if m in KP_MUST or m in extra or m >= hi - 2 or m == lo or m == 1 << (hi.bit_length() - 1)]
+    rest = [m for m in ms if m not in must]
+    room = max(0, 11 - len(must))
+    if len(rest) > room:                            # spread evenly over the magnitudes (deterministic)
+        rest = [rest[(i * len(rest)) // room] for i in range(room)] if room else []
+    return sorted(set(must) | set(rest))
+
+
+def kp_values(src, m, rot, small_k=None):
+    """k*m, k*m+-1 for small and large |k|, both signs, restricted to what the source type represents exactly"""
+    small = list(small_k) if small_k else [1, 2] + [KP_SMALL_K[2 + (rot + j) % (len(KP_SMALL_K) - 2)] for j in (0, 4)]
+    out = set()
+    if src in ("f", "d"):
+        prec = 24 if src == "f" else 53
+        top = 126 if src == "f" else 300
+        for k in small:
+            for d in (-1, 0, 1):
+                for sg in (1, -1):
+                    v = sg * k * m + d
+                    out.add(v if float_representable(v, prec) else round_to_float(v, prec))
+        mr = round_to_float(m, prec)              # (== m when the modulus is representable in the source type)
+        for j in sorted({max(0, prec - mr.bit_length() - 1), prec - 1, 64 - mr.bit_length(), top - mr.bit_length()}):
+            if j < 0 or (mr << j).bit_length() > top + 1:
+                continue
+            for c in (1, 3):
+                v = (c * mr) << j
+                if not float_representable(v, prec) or v.bit_length() > top + 1:
+                    continue
+                ulp = 1 << max(0, v.bit_length() - prec)
+                out |= {v, -v, v + ulp, v - ulp, -v + ulp, -v - ulp}
+        return sorted(v for v in out if float_representable(v, prec) and abs(v) < 2**(top + 1))
+    if src in SRC_RANGE:
+        lo, hi = SRC_RANGE[src]
+    else:
+        lo, hi = -2**200, 2**200
+    for sg, bound in ((1, hi), (-1, -lo)):
+        kmax = bound // m
+        ks = set(small) | {kmax, kmax - 1}
+        for b in (31, 53, 64):
+            if 2**b <= bound // 2:
+                ks.add(2**b // m + 1 if rot % 2 else 2**b // m)
+        for k in ks:
+            if k >= 1:
+                for d in (-1, 0, 1):
+                    out.add(sg * k * m + d)
+    return sorted(v for v in out if lo <= v <= hi)
+
+
+# --- ModularExtended: the in-place `reduce` behind the generic init is  q = floor(rn(a * rn(1/p)));  a = fma(-q, p, a);
+#     if (a >= p) a -= p; else if (a < 0) a += p.   An independent re-computation (exact rationals) of the value that reaches
+#     the correction tail, used ONLY to pick the inputs: those with a - q*p == p exactly, > p, < 0.
+from fractions import Fraction
+
+
+def rn_frac(x, prec):
+    """round the rational x to a prec-bit significand, to nearest, ties to even"""
+    if x == 0:
+        return Fraction(0)
+    sgn = 1 if x > 0 else -1
+    x = abs(x)
+    e = x.numerator.bit_length() - x.denominator.bit_length() - prec
+    two = Fraction(2)
+    while x / two**e >= 2**prec:
+        e += 1
+    while x / two**e < 2**(prec - 1):
+        e -= 1
+    y = x / two**e
+    mnt = y.numerator // y.denominator
+    f = y - mnt
+    if f > Fraction(1, 2) or (f == Fraction(1, 2) and mnt % 2 == 1):
+        mnt += 1
+    return sgn * mnt * two**e
+
+
+_INVP = {}
+
+
+def ext_tail_value(prec, p, a):
+    """the value a - q*p that ModularExtended::reduce hands to its correction tail (a exactly representable)"""
+    key = (prec, p)
+    if key not in _INVP:
+        _INVP[key] = rn_frac(Fraction(1, p), prec)
+    t = rn_frac(a * _INVP[key], prec)
+    q = t.numerator // t.denominator
+    return a - q * p
+
+
+def ext_tail_class(prec, p, a):
+    r = ext_tail_value(prec, p, a)
+    return "tail==p" if r == p else "tail>p" if r > p else "tail<0" if r < 0 else "no-correction"
+
+
+def ext_generic_sources(ring):
+    """source types that reach the generic Caster + reduce template of ModularExtended (no exact specialisation)"""
+    if ring == "ed":
+        return ["i8", "u8", "i16", "u16", "i32", "u32", "ll", "ull"]
+    return ["i8", "u8", "i16", "u16", "ll", "ull"]
+
+
+def ext_special_moduli(prec, lo, hi):
+    """moduli, at several magnitudes, whose rounded inverse makes the quotient estimate of the multiple p itself (resp. of
+    -k*p, small k) one too small: reduce then reaches its tail with exactly p"""
+    out = []
+    for base in [5, 40] + [7 * 2**(j - 3) for j in (8, 10, 12, 15, 16, 20, 21, 30, 40, 50)] + [hi - 300]:   # 1/p low in its binade: large relative rounding error
+        pos = neg = None
+        p = max(lo, base)
+        while p <= hi and p < base + 400 and (pos is None or neg is None):
+            if pos is None and ext_tail_value(prec, p, p) == p:
+                pos = p
+            if neg is None and any(ext_tail_value(prec, p, -k * p) == p for k in (1, 2, 3)):
+                neg = p
+            p += 1
+        out += [x for x in (pos, neg) if x is not None]
+    return sorted(set(out))
+
+
+def ext_boundary_values(ring, src, m):
+    """for a generic-path source type: the multiples (|k| <= 64 and the largest ones) and near-multiples, classified by the
+    branch of the correction tail they take; every class that exists is kept (deterministic)"""
+    prec = 24 if ring == "ef" else 53
+    lo, hi = SRC_RANGE[src]
+    lim = 2**prec - 1                               # beyond: Caster<Element>(a) rounds (known finding for long long)
+    lo, hi = max(lo, -lim), min(hi, lim)
+    cands = set()
+    for sg, bound in ((1, hi), (-1, -lo)):
+        kmax = bound // m
+        ks = set(range(1, 65)) | {kmax, kmax - 1, kmax - 2, kmax // 2, kmax // 3} | {(1 << j) // m for j in range(8, prec + 1)}
+        for k in ks:
+            if k >= 1:
+                for d in (-1, 0, 1):
+                    cands.add(sg * k * m + d)
+    byc = {}
+    for a in sorted(v for v in cands if lo <= v <= hi):
+        byc.setdefault(ext_tail_class(prec, m, a), []).append(a)
+    keep = []
+    for c, vs in byc.items():
+        n = 40 if c == "tail==p" else 12
+        step = max(1, len(vs) // n)
+        keep += [(v, c) for v in vs[::step][:n]] + [(vs[-1], c)]
+    return keep
+
+
 # ------------------------------------------------------------------ specification oracle
 def canon(ring, m, x):
     """the element the property demands: the canonical representative of x mod m in the ring's own range"""
@@ -198,8 +358,8 @@ def lift(ring, m, x):
 
 CONV_FORMS = ["I", "i64", "u64", "d", "i32", "u32", "f", "i16", "u16"]
 CONV_RANGE = {"I": None, "i64": SRC_RANGE["i64"], "u64": SRC_RANGE["u64"], "d": (-2**53, 2**53), "i32": SRC_RANGE["i32"], "u32": SRC_RANGE["u32"],
-              "f": (-2**24, 2**24), "i16": SRC_RANGE["i16"], "u16": SRC_RANGE["u16"]}
-RT_FORMS = ["I", "i64", "u64", "d"]
+              "f": (-2**24, 2**24), "i16": SRC_RANGE["i16"], "u16": SRC_RANGE["u16"], "ll": SRC_RANGE["i64"], "ull": SRC_RANGE["u64"]}
+RT_FORMS = ["I", "i64", "u64", "d", "i32", "u32", "f", "ll", "ull", "i16"]     # the model driver prints the first four
 
 
 # ------------------------------------------------------------------ known defect domains (frag/C04.findings.json is generated from this table)
@@ -216,7 +376,28 @@ def _integral(ring):
 
 
 # /repo commits that repaired the defect (frag/C04.fix-<n>.diff); None = repair proposed, not applied yet (finding stays `known`)
-FIX = {1: "964499d", 2: "6fd4ec8", 3: "0c8663a", 4: "6534350", 5: "e1cb767", 6: "3b7f5ec", 7: "d8dba27", 8: "5a5d83b", 9: "8a3f862", 10: "1bd6bf3", 11: "99e44e4", 12: "8c01dc7"}
+FIX = {1: "964499d", 2: "6fd4ec8", 3: "0c8663a", 4: "6534350", 5: "e1cb767", 6: "3b7f5ec", 7: "d8dba27", 8: "5a5d83b", 9: "8a3f862", 10: "1bd6bf3", 11: "99e44e4", 12: "8c01dc7",
+       13: None, 14: None, 15: None}
+
+
+_SRC_STATE = {}
+
+
+def float_overloads_take_every_floating_source():
+    """READ from /repo's current modular-integral.h: is the fmod overload of init selected for EVERY floating source
+    (`IS_FLOAT(Source) && IS_SINT(Storage_t)`, frag/C04.fix-15.diff) or only for `sizeof(Source) >= sizeof(Storage_t)`?
+    The site / input class of a floating source narrower than the storage type (float into 64-bit storage) follows from it."""
+    if "float_all" not in _SRC_STATE:
+        st, lines = False, []
+        try:
+            txt = open(os.path.join(vf.REPO, "src/kernel/ring/modular-integral.h")).read()
+            lines = [l.strip() for l in txt.splitlines() if "__GIVARO_CONDITIONAL_TEMPLATE" in l and "IS_FLOAT(Source)" in l and "IS_SINT(Storage_t)" in l]
+            st = bool(lines) and all("sizeof" not in l for l in lines)
+        except OSError:
+            pass
+        _SRC_STATE["float_all"] = st
+        _SRC_STATE["float_overload_condition"] = lines
+    return _SRC_STATE["float_all"]
 
 
 def code_site(ring, src):
@@ -234,7 +415,7 @@ def code_site(ring, src):
             ov = "unsigned Source, sizeof >= Storage_t"
         elif isint and not uns and sbt > sb:
             ov = "signed Source, sizeof > Storage_t"
-        elif src in ("f", "d") and (32 if src == "f" else 64) >= sb:
+        elif src in ("f", "d") and ((32 if src == "f" else 64) >= sb or float_overloads_take_every_floating_source()):
             ov = "floating Source, sizeof >= Storage_t; %s storage" % st
         else:
             ov = "const Source& generic; %s storage" % st
@@ -264,8 +445,10 @@ def code_site(ring, src):
     return "%s::init(%s)" % (fam, ov)
 
 
-def defect_rules():
+def defect_rules(float_all=None):
     """(klass, ring predicate, sources, input domain (ring,src,m,x)->bool, what, fix number or None); first match wins"""
+    if float_all is None:
+        float_all = float_overloads_take_every_floating_source()
     tmin = lambda r, s, m, x: x == SRC_RANGE[s][0]
     LL = ("i32", "i64", "ll")
     neg = lambda r, s, m, x: x < 0
@@ -311,15 +494,22 @@ def defect_rules():
          "uint32_t went through the generic Caster<Element>(a): values >= 2^31 wrap to negative numbers", 6),
         ("unsigned-source-of-storage-width>=2^(N-1)", lambda r: r == "bi64", ("u64", "ull"), ge63,
          "uint64_t goes through the generic Caster<Element>(a): values >= 2^63 wrap to negative numbers", 10),
+    ] + ([
+        # (frag/C04.fix-15.diff is in /repo: every floating source takes the fmod overload, a float is reduced as a double)
+        ("modulus-not-representable-in-source", lambda r: r in ("mi64w", "mu64w"), ("f", "d"),
+         lambda r, s, m, x: not float_representable(m, 53),
+         "fmod(y, double(_p)): a modulus beyond 2^53 is rounded to double, every residue is taken modulo the wrong number", None),
+    ] if float_all else [
         ("modulus-not-representable-in-source", lambda r: r in ("mi32w", "mu32w", "mi64w", "mu64w"), ("f", "d"),
          lambda r, s, m, x: _sbits(r) == (32 if s == "f" else 64) and not float_representable(m, 24 if s == "f" else 53),
-         "fmod(y, Source(_p)): the modulus is rounded to the floating source type, every residue is taken modulo the wrong number", None),
+         "fmod(y, Source(_p)): the modulus is rounded to the floating source type, every residue is taken modulo the wrong number", 15),
         ("float-beyond-element-range", lambda r: r in ("mi64", "mi64w"), ("f",), lambda r, s, m, x: abs(x) >= 2**63,
-         "generic init casts the float to int64_t before reducing: undefined for |y| >= 2^63", None),
+         "generic init casts the float to int64_t before reducing: undefined for |y| >= 2^63", 15),
         ("float-beyond-element-range", lambda r: r in ("mu64", "mu64w"), ("f",), lambda r, s, m, x: abs(x) >= 2**64,
-         "generic init casts |y| to uint64_t before reducing: undefined for |y| >= 2^64", None),
+         "generic init casts |y| to uint64_t before reducing: undefined for |y| >= 2^64", 15),
+    ]) + [
         ("float-beyond-element-range", lambda r: r in ("mru7", "mru67"), ("f", "d"), lambda r, s, m, x: abs(x) >= 2**64,
-         "the floating value is cast to a 64-bit word before reducing: undefined for |y| >= 2^64", None),
+         "the floating value is cast to a 64-bit word before reducing: undefined for |y| >= 2^64", 14),
         ("float-equal-2^64", lambda r: r == "gfq64", ("f", "d"), lambda r, s, m, x: abs(x) == 2**64,
          "`tr > Signed_Trait<UTT>::max()` compares with 2^64-1 rounded to 2^64: |y| = 2^64 takes the (UTT) cast (undefined)", 10),
         ("float-beyond-element-range", lambda r: r == "log16", ("f", "d"), lambda r, s, m, x: abs(x) >= 2**63,
@@ -337,9 +527,9 @@ def defect_rules():
          "generic init = Caster<float>(a) (rounds, inf for wide Integers) + one-step FMA reduce (valid for |a| < 2^24 only); the "
          "`const Integer&` specialisation was never selected", 12),
         ("long-long-beyond-exact-floating-range", lambda r: r == "ed", ("ll", "ull"), lambda r, s, m, x: abs(x) >= 2**53,
-         "long long / unsigned long long are not int64_t / uint64_t: generic init = Caster<double>(a) (rounds) + one-step FMA reduce", None),
+         "long long / unsigned long long are not int64_t / uint64_t: generic init = Caster<double>(a) (rounds) + one-step FMA reduce", 13),
         ("long-long-beyond-exact-floating-range", lambda r: r == "ef", ("ll", "ull"), lambda r, s, m, x: abs(x) >= 2**24,
-         "long long / unsigned long long are not int64_t / uint64_t: generic init = Caster<float>(a) (rounds) + one-step FMA reduce", None),
+         "long long / unsigned long long are not int64_t / uint64_t: generic init = Caster<float>(a) (rounds) + one-step FMA reduce", 13),
     ]
 
 
@@ -369,6 +559,18 @@ def in_known_defect(ring, src, m, x):
         if src in srcs and rp(ring) and dom(ring, src, m, x):
             return not (fix is not None and FIX.get(fix))
     return False
+
+
+_RULES_UNREPAIRED = None
+
+
+def model_describes_unrepaired_body(ring, src, m, x):
+    """the Coq model follows /repo as it was when frag/C04.fix-13..15 were proposed: on the domains of those defects it describes the
+    unrepaired bodies.  Once a repair is in /repo the implementation agrees with the ORACLE there and the model is not compared."""
+    global _RULES_UNREPAIRED
+    if _RULES_UNREPAIRED is None:
+        _RULES_UNREPAIRED = [r for r in defect_rules(float_all=False) if r[5] in (13, 14, 15)]
+    return any(src in srcs and rp(ring) and dom(ring, src, m, x) for kl, rp, srcs, dom, what, fix in _RULES_UNREPAIRED)
 
 
 HOWS = ["copy", "assign-lo", "assign-hi", "defassign", "randiter", "copyassign"]
@@ -426,6 +628,9 @@ def run_impl(binary, lines, timeout=600):
     return out
 
 
+KP_COV = {}
+
+
 def gen_cases(rings, cards, rng, tier):
     quick = tier == "quick"
     nrand = 3 if quick else 20
@@ -481,6 +686,30 @@ def gen_cases(rings, cards, rng, tier):
                     cases.append(("init", ring, src, p, k, x, ""))
                 if src in ("i64", "I", "d", "u32", "ll"):
                     for x in vals[::3]:
+                        cases.append(("rt", ring, src, p, k, x, ""))
+        # ---- multiples of the modulus: k*m, k*m+-1, every source type, many moduli (deterministic, independent of the seed)
+        if ring in GFQ_FIELDS:
+            kfields = sorted(set(GFQ_QUICK[ring]) | {(7, 2), (5, 3), (2, 4)})
+        else:
+            extra = ext_special_moduli(24 if ring == "ef" else 53, lo, hi) if ring in ("ef", "ed") else ()
+            kfields = [(m, 1) for m in kp_moduli(ring, lo, hi, extra)]
+        KP_COV.setdefault("moduli", {})[ring] = [str(p**k) for p, k in kfields]
+        for fi, (p, k) in enumerate(kfields):
+            m = p**k
+            for si, src in enumerate(MAIN_SRCS + SMALL_SRCS + RECINT_SRCS):
+                vals = kp_values(src, m, fi + si)
+                if ring in ("ef", "ed") and src in ext_generic_sources(ring):
+                    for v, c in ext_boundary_values(ring, src, m):
+                        vals.append(v)
+                        KP_COV.setdefault("extended_reduce_tail", {}).setdefault(ring + "/" + c, set()).add((src, m, v))
+                    vals = sorted(set(vals))
+                if src in RECINT_SRCS and not elt.startswith("ru"):
+                    elo, ehi = ELT_RANGE.get(elt, (-2**63, 2**63))
+                    vals = [v for v in vals if max(0, elo) <= v <= ehi and v < 2**31]
+                KP_COV["cases"] = KP_COV.get("cases", 0) + len(vals)
+                for x in vals:
+                    cases.append(("init", ring, src, p, k, x, ""))
+                    if abs(x) <= m + 1 or (x % m == 0 and x % 5 == 0):
                         cases.append(("rt", ring, src, p, k, x, ""))
     return cases
 
@@ -579,6 +808,7 @@ def main(tier, replay=None):
     bad_init = set()
     ncorr = 0
     nub = 0
+    nrepaired = 0
     for ring in sorted(by_ring):
         kind, elt = RINGS[ring]
         io, mo = results[ring]
@@ -628,11 +858,24 @@ def main(tier, replay=None):
                                 chk.fail_input("%s::convert(%s)" % (RING_CXX[ring], form), "canonical-element", case, str(want_lift), got,
                                                "convert of the canonical element is not its canonical lift")
                             break
+                if len(chk.failing) == nfail and len(t) > 10:
+                    # predicates on the produced element: isZero isOne isMOne areEqual(e, zero) areEqual(e, init(0))
+                    r = x % m
+                    mone_lift = (m - 1) if not (kind == "tab" and k > 1) else (p - 1 if p > 2 else 1)
+                    wantf = "".join("1" if b else "0" for b in (r == 0, r == 1 % m, r == mone_lift, r == 0, r == 0))
+                    dist["predicates"] = dist.get("predicates", 0) + 1
+                    if t[10] != wantf:
+                        chk.fail_input(site, kl, case, wantf, t[10], "isZero/isOne/isMOne/areEqual(e,zero)/areEqual(e,init(0)) of init(x) "
+                                       "do not say which of 0, 1, -1 the element is the image of")
                 if len(chk.failing) != nfail:
                     bad_init.add((ring, src, p, k, x, how))
                 # correspondence
                 if ml is not None and len(chk.failing) == nfail and ml[0] not in ("NOMODEL",):
-                    if ml[0] == "UB":
+                    if in_known_defect(ring, src, m, x) or model_describes_unrepaired_body(ring, src, m, x):
+                        # the input lies in the domain of a defect listed as unrepaired, yet the implementation agrees with the oracle:
+                        # the repair has reached /repo.  The model still describes the unrepaired body on this domain only: not compared.
+                        nrepaired += 1
+                    elif ml[0] == "UB":
                         nub += 1
                     else:
                         ncorr += 1
@@ -650,17 +893,21 @@ def main(tier, replay=None):
                         continue        # the lift does not fit the intermediate type: outside the claim
                     if in_known_defect(ring, form, m, want_lift):
                         continue        # init from this intermediate type is a known defect for this value (reported by the init cases)
+                    if got == "-":
+                        continue        # the ring has no such convert / init form
+                    dist["rt-through/" + form] = dist.get("rt-through/" + form, 0) + 1
                     if got != t[0]:
                         chk.fail_input(code_site(ring, form) + "/roundtrip",
                                        klass_of(ring, form, m, want_lift), case, t[0], got, "init(convert<%s>(e)) != e" % form)
                         break
-                if ml is not None and len(chk.failing) == nfail and ml[0] not in ("NOMODEL", "UB") and kind != "tab":
+                if ml is not None and len(chk.failing) == nfail and ml[0] not in ("NOMODEL", "UB") and kind != "tab" and not in_known_defect(ring, src, m, x) \
+                        and not model_describes_unrepaired_body(ring, src, m, x):
                     ncorr += 1
                     for j, form in enumerate(RT_FORMS):
                         rg = CONV_RANGE[form]
                         if rg is not None and not (rg[0] <= want_lift <= rg[1]):
                             continue
-                        if j + 1 < len(ml) and ml[j + 1] != "UB" and ml[j + 1] != t[j + 1]:
+                        if j + 1 < len(ml) and j + 1 < len(t) and ml[j + 1] != "UB" and ml[j + 1] != t[j + 1]:
                             chk.broke("correspondence (round trip through %s): model and implementation differ on %s m=%d x=%d: model=%s impl=%s"
                                       % (form, site, m, x, ml[j + 1], t[j + 1]))
             elif op == "const":
@@ -685,6 +932,32 @@ def main(tier, replay=None):
                     ncorr += 1
                     if ml[:3] != t[:3] or ml[3] != t[6]:
                         chk.broke("correspondence (constants): model and implementation differ on %s m=%d: model=%s impl=%s" % (site, m, ml, t[:3] + [t[6]]))
+    # 4b. ModularExtended::reduce.  (i) the theorems C04_extended_* hold for p <= 2^(prec-1): re-checked against the maxCardinality the
+    #     compiled implementation reports; (ii) the value handed to the correction tail, as the extracted model computes it, against the
+    #     generator's independent exact-rational re-computation, on every input of the boundary classes (tail == p, tail < 0, none)
+    for ring, prec in (("ed", 53), ("ef", 24)):
+        if ring in cards and not (2 <= cards[ring][1] <= 2**(prec - 1)):
+            chk.broke("maxCardinality of %s is %d: outside the hypothesis p <= 2^%d of C04_extended_reduce_one_correction_step_suffices"
+                      % (RING_CXX[ring], cards[ring][1], prec - 1))
+    tails = sorted({(key.split("/")[0], m, v) for key, st in KP_COV.get("extended_reduce_tail", {}).items() for (_s, m, v) in st})
+    if drv and tails and not replay:
+        rc, to, terr = vf.run_lines(drv, "".join("tail %s - %d %d\n" % t for t in tails), timeout=1500)
+        if rc != 0 or len(to) != len(tails):
+            chk.broke("model driver failed on the ModularExtended tail values (rc=%s, %d/%d lines) %s" % (rc, len(to), len(tails), terr[-300:]))
+        else:
+            nbad = 0
+            for (ring, m, v), got in zip(tails, to):
+                want = ext_tail_value(24 if ring == "ef" else 53, m, v)
+                if got.strip() != str(want):
+                    nbad += 1
+                    if nbad <= 3:
+                        chk.broke("ModularExtended reduce: model tail value %s != exact-rational recomputation %d (%s, p=%d, a=%d)" % (got, want, ring, m, v))
+            chk.cov["extended_reduce_tail_values_model_vs_recomputation"] = len(tails)
+    chk.cov["extended_reduce_tail_classes"] = {k: len(v) for k, v in sorted(KP_COV.get("extended_reduce_tail", {}).items())}
+    chk.cov["multiples_of_modulus_stream"] = {"cases": KP_COV.get("cases", 0), "moduli": KP_COV.get("moduli", {}),
+                                              "rule": "every ring x every source type x these moduli x {k*m, k*m+-1 : |k| in 1,2, two of 3..40 (rotating), "
+                                                      "floor(2^31/m), floor(2^53/m), floor(2^64/m), kmax-1, kmax of the source type}, both signs; floating sources: "
+                                                      "multiples m*2^j, 3*m*2^j and their neighbours; deterministic (no seed)"}
     if len(chk.broken) > 25:
         chk.broken = chk.broken[:25] + [{"what": "... %d more" % (len(chk.broken) - 25), "detail": ""}]
     if explore:
@@ -702,5 +975,6 @@ def main(tier, replay=None):
                        "multiples of m, type limits, 2^24/2^53/2^63/2^64 +-1, random, wide); non-trivial = x<0 or |x|>=m; distinct = (op,ring,src,p,k,x)")
     chk.cov["traces_validated_against_impl"] = ncorr
     chk.cov["model_leaves_defined_behaviour"] = nub
+    chk.cov["inputs_in_a_listed_defect_domain_on_which_the_implementation_is_correct"] = nrepaired
     chk.cov["distribution_by_ring_and_source"] = dist
     return chk.finish()
